@@ -160,7 +160,11 @@ type taskState struct {
 	outBytes   int64
 }
 
+// replays must not silently drop a run
+var faultIsFatal = false
+
 type runOutcome struct {
+	fault string // a fixed table of the simulator overflowed: nothing observed in this run counts
 	sim   simrt.Result
 	viol  []proto.Violation
 	stats taskState
@@ -264,7 +268,12 @@ func execRun(rec *proto.RunRec, free bool) runOutcome {
 		}
 		out.sim = simrt.Run(nt, nops, pol, body)
 		if f := simrt.Fault(); f != "" {
-			die("simulator fault: %s", f)
+			if faultIsFatal {
+				die("simulator fault: %s", f)
+			}
+			out.fault = f
+			out.viol = nil
+			return out
 		}
 		if out.sim.Deadlock {
 			d := "every unfinished task is blocked on a library lock / once / channel and nobody can make progress"
@@ -370,7 +379,9 @@ func doOp(task int, op *proto.Op, shared map[int]*argSlice, st *taskState) {
 			Detail: fmt.Sprintf("%s(%q, %q) differs from the sequential reference", op.Fn, op.Expr, op.List), Expected: op.Expect, Observed: outcome})
 	}
 	if res.kind != 0 || res.err != nil {
-		if op.ScribbleRes && res.kind != 0 {
+		if op.ScribbleRes && res.kind != 0 && (a == nil || !aliases(res, a)) {
+			// (never through a result that shares memory with the caller's own argument: the
+			// write would land in a buffer other callers may share)
 			res.scribble(op.ID)
 			st.scribR++
 			if res.err != nil {
